@@ -269,11 +269,12 @@ def scan(prog):
 
 def obligations(prog):
     from core import armed_group_obligations
-    groups = load_table("inb_sites.json")["groups"]
+    tab = load_table("inb_sites.json")
+    groups = tab["groups"]
     sites = scan(prog)
     for s in sites:
         s["idbase"] = s["id"].rsplit("#", 1)[0]
-    obs = armed_group_obligations("R-INB", sites, groups)
+    obs = armed_group_obligations("R-INB", sites, groups, unproved=tab.get("unproved"))
     return obs, {"sites": len(sites), "armed_groups": len(groups), "armed_sites": sum(groups.values()),
                  "not_provable_sites": [s["id"] + " @" + s["loc"] + ": " + s["detail"] for s in sites if not s["proved"]]}
 
@@ -283,13 +284,15 @@ if __name__ == "__main__":
     prog = program("K0")
     sites = scan(prog)
     if len(sys.argv) > 1 and sys.argv[1] == "regen":
-        groups = {}
+        groups, unp = {}, {}
         for s in sites:
+            b = s["id"].rsplit("#", 1)[0]
             if s["proved"]:
-                b = s["id"].rsplit("#", 1)[0]
                 groups[b] = groups.get(b, 0) + 1
-        json.dump({"_comment": "R-INB: per (function, read kind) the number of sites proved on the reviewed tree (python3 rules/r_inb.py regen).",
-                   "groups": dict(sorted(groups.items()))}, open(os.path.join(VERIF, "tables", "inb_sites.json"), "w"), indent=0)
+            else:
+                unp[b] = unp.get(b, 0) + 1
+        json.dump({"_comment": "R-INB: per (function, read kind) the number of sites proved / not proved on the reviewed tree (python3 rules/r_inb.py regen).",
+                   "groups": dict(sorted(groups.items())), "unproved": {k: v for k, v in sorted(unp.items()) if k in groups}}, open(os.path.join(VERIF, "tables", "inb_sites.json"), "w"), indent=0)
     for s in sites:
         print("PROVED " if s["proved"] else "UNPROVED", s["id"], s["loc"], "|", s["text"][:90], "|", s["detail"][:110])
     print(sum(1 for s in sites if s["proved"]), "proved of", len(sites))
